@@ -15,7 +15,7 @@ AUDIT = 'Audit/C19.lean'
 ANCHORS = ['txtorcon/controller.py']
 RULE = ('real txtorcon.launch() on a fake reactor (MemoryReactorClock + spawnProcess handing the real TorProcessProtocol a fake process transport), '
         'a data directory that really exists (created by launch() or supplied), and the fake Tor behind connection_creator. Operations in any order: '
-        'stdout chunks (the control-listener line whole, split at a random offset, or absent), stderr output, the connection attempt succeeding or '
+        'stdout chunks (the control-listener line whole, split at a random offset, cut into three or more reads down to single bytes, or absent), stderr output, the connection attempt succeeding or '
         'failing, each step of the control connection (protocol bootstrap, SETEVENTS, TAKEOWNERSHIP, RESETCONF __OwningControllerProcess, attaching '
         'the configuration) acknowledged or rejected, BOOTSTRAP progress events (10..100) on any connection, the timeout, process exit with a code or '
         'a signal, further when_connected() calls at any position, in particular after a second outcome-producing input. quick: 600 random sequences of 4..14 operations; thorough: 12000 random + every '
@@ -71,6 +71,10 @@ def run_impl(c):
     reactor = make_reactor(log, holder)
     creators, sims = [], {}
     user_dir = tempfile.mkdtemp(prefix='c19user') if c['user_dir'] else None
+    user_parent = None
+    if c['user_dir'] == 'fresh':
+        # a directory the caller names but has not created: launch() creates it, and it is still the caller's
+        user_parent, user_dir = user_dir, os.path.join(user_dir, 'data')
     before = set(os.listdir(tempfile.gettempdir()))
 
     def creator():
@@ -169,7 +173,7 @@ def run_impl(c):
                     st.release(None, None)
         trace.append(snapshot())
     finally:
-        for p in (tmpdir, user_dir):
+        for p in (tmpdir, user_dir, user_parent):
             if p and os.path.isdir(p):
                 shutil.rmtree(p, ignore_errors=True)
     return {'steps': trace, 'launch': result[0] if result else 'pending', 'user_dir_kept': (user_dir is None) or state['user'] or False}
@@ -371,7 +375,7 @@ def run_cases(cases, drv, tier):
         reached = any(x.startswith('cmd:') for s in im['steps'] for x in s)
         decided = any(x in ('term', 'lose') or x.startswith(('fired', 'rmtree')) for s in im['steps'] for x in s) or im['launch'] != 'pending'
         res.append(Result(c, view, model, spec, corr_ok=corr_ok, prop_ok=prop_ok, in_h=True, nontrivial=(reached and decided),
-                          tags=kinds + ['launch=' + im['launch'], 'user-dir' if c['user_dir'] else 'temp-dir']))
+                          tags=kinds + ['launch=' + im['launch'], 'user-dir-fresh' if c['user_dir'] == 'fresh' else 'user-dir' if c['user_dir'] else 'temp-dir']))
     return res
 
 
@@ -391,9 +395,17 @@ def chunks(rng):
     r = rng.random()
     if r < 0.35:
         return [LINE]
-    if r < 0.8:
+    if r < 0.6:
         i = rng.randrange(1, len(LINE))
         return [LINE[:i], LINE[i:]]
+    if r < 0.85:
+        # three or more reads, some of them a few bytes long, possibly after an earlier line
+        text = (rng.choice(['', '[notice] Tor 0.4.8 starting\n']) + LINE)
+        k = rng.choice([1, 2, 4, 7])
+        if rng.random() < 0.5:
+            return [text[i:i + k] for i in range(0, len(text), k)]
+        cuts = sorted(rng.sample(range(1, len(text)), rng.randint(2, 5)))
+        return [text[a:b] for a, b in zip([0] + cuts, cuts + [len(text)])]
     return ['[notice] Tor 0.4.8 starting\n']
 
 
@@ -441,7 +453,7 @@ def gen_cases(rng, tier):
         for _ in range(rng.choice([0, 1, 1, 2])):
             seq.append(rng.choice([['exit', rng.choice([0, 1, None])], ['timeout'], ['prog', 0, 100]]))
             seq.append(['when'])
-        yield within_h({'user_dir': rng.random() < 0.4, 'timeout': rng.random() < 0.8, 'kill': rng.random() < 0.8, 'ops': seq})
+        yield within_h({'user_dir': rng.choice([False, False, False, True, 'fresh']), 'timeout': rng.random() < 0.8, 'kill': rng.random() < 0.8, 'ops': seq})
     if tier != 'quick':
         multiset = [['out', LINE], ['conn', 0, True], ['ack', 0, True], ['ack', 0, True], ['prog', 0, 100], ['timeout'], ['exit', 0], ['when']]
         seen = set()
